@@ -572,6 +572,7 @@ func (e *Engine) modularCallSig(st *State, sig *types.Signature, name string, ct
 			a = e.copyIn(st, a, typs[i])
 		} else {
 			a = e.materialiseIfSlice(st, a, typs[i])
+			a = e.plainPtr(st, a)
 		}
 		args[i] = a
 		env[names[i]] = specBind{a, typs[i]}
@@ -713,6 +714,11 @@ func (e *Engine) copyIn(st *State, a Val, T types.Type) Val {
 	PT := pt.Elem()
 	if px.Kind == PField && px.Path == "" {
 		return scalar(px.Ref)
+	}
+	if px.Kind == PLocal && px.Path == "" && px.Elem < 0 {
+		if _, isArr := st.Cells[px.Cell].Typ.Underlying().(*types.Array); !isArr {
+			return scalar(e.spillObject(st, px.Cell))
+		}
 	}
 	if _, isArr := PT.Underlying().(*types.Array); isArr {
 		panic(e.unsupported("array pointer passed to a function under contract"))
